@@ -175,3 +175,109 @@ fn c14_push_bounded_keep2() { check_push_bounded(2) }
 #[kani::proof]
 #[kani::unwind(6)]
 fn c14_push_bounded_keep3() { check_push_bounded(3) }
+
+// ---- C34 -------------------------------------------------------------------
+//
+// The system clock is a stub returning arbitrary non-decreasing instants; the
+// data set's expiry is the fixed instant E = 2001-09-09T01:46:40Z and the
+// clock ranges over [E - 2^33 s, E + 2^33 s], so every relative position of
+// "now", "now + refresh" and the expiry is covered.
+
+const E_SECS: u64 = 1_000_000_000;
+static mut CLOCK_CALLS: u8 = 0;
+static mut CLOCK_T: [(u64, u32); 2] = [(0, 0); 2];
+
+fn system_now_stub() -> SystemTime {
+    unsafe {
+        let i = if CLOCK_CALLS == 0 { 0 } else { 1 };
+        CLOCK_CALLS = 1;
+        let (s, n) = CLOCK_T[i];
+        SystemTime::UNIX_EPOCH + Duration::new(s, n)
+    }
+}
+
+fn utc_now_stub() -> DateTime<Utc> {
+    DateTime::<Utc>::default()
+}
+
+/// Instants and durations as (seconds, nanoseconds) pairs: the reference is
+/// written with additions, subtractions and comparisons only.
+type Pair = (u64, u32);
+
+fn p_lt(a: Pair, b: Pair) -> bool { a.0 < b.0 || (a.0 == b.0 && a.1 < b.1) }
+
+fn p_sub(a: Pair, b: Pair) -> Pair {
+    // a - b, saturating at zero
+    if !p_lt(b, a) { return (0, 0) }
+    if a.1 >= b.1 { (a.0 - b.0, a.1 - b.1) }
+    else { (a.0 - b.0 - 1, a.1 + 1_000_000_000 - b.1) }
+}
+
+fn check_refresh_wait(has_min: bool, has_expiry: bool) {
+    let r: u64 = kani::any();
+    let m: u64 = kani::any();
+    kani::assume(r <= (1u64 << 32) && m <= (1u64 << 32));
+    let t1: Pair = (kani::any(), kani::any());
+    let t2: Pair = (kani::any(), kani::any());
+    kani::assume(t1.1 < 1_000_000_000 && t2.1 < 1_000_000_000);
+    kani::assume(t1.0 >= 1 && t1.0 <= E_SECS + (1u64 << 33));
+    kani::assume(t2.0 <= E_SECS + (1u64 << 34));
+    kani::assume(!p_lt(t2, t1));
+    unsafe {
+        CLOCK_CALLS = 0;
+        CLOCK_T = [t1, t2];
+    }
+    let mut h = mk(3);
+    h.refresh = Duration::from_secs(r);
+    h.min_refresh = if has_min { Some(Duration::from_secs(m)) } else { None };
+    let expiry = if has_expiry {
+        Some(rpki::repository::x509::Time::utc(2001, 9, 9, 1, 46, 40))
+    } else { None };
+    h.current = Some(Arc::new(
+        crate::payload::snapshot_kani::snapshot_with_refresh(expiry)
+    ));
+    let shared = SharedHistory(Arc::new(RwLock::new(h)));
+    shared.mark_update_done();
+    let wd = shared.read().refresh_wait();
+    let w: Pair = (wd.as_secs(), wd.subsec_nanos());
+
+    let floor: Pair = if has_min { (m, 0) } else { (r, 0) };
+    let ceil: Pair = if has_min && m > r { (m, 0) } else { (r, 0) };
+    assert!(!p_lt(w, floor), "next run scheduled earlier than min-refresh / refresh");
+    assert!(!p_lt(ceil, w), "next run scheduled later than max(refresh, min-refresh)");
+    // reference: next start = min(t1 + refresh, expiry); wait = max(next - t2, floor)
+    let planned: Pair = (t1.0 + r, t1.1);
+    let e: Pair = (E_SECS, 0);
+    let next = if has_expiry && p_lt(e, planned) { e } else { planned };
+    let rem = p_sub(next, t2);
+    let expect = if p_lt(floor, rem) { rem } else { floor };
+    assert!(w == expect, "wait differs from max(min(now+refresh, expiry) - now, floor)");
+    kani::cover!(has_expiry && p_lt(e, planned) && p_lt(floor, rem), "expiry_brings_run_forward");
+    kani::cover!(!p_lt(floor, rem), "floor_applies");
+    kani::cover!(p_lt(floor, rem), "remaining_time_applies");
+    std::mem::forget(shared);
+}
+
+#[kani::proof]
+#[kani::unwind(3)]
+#[kani::stub(std::time::SystemTime::now, system_now_stub)]
+#[kani::stub(chrono::Utc::now, utc_now_stub)]
+fn c34_wait_no_min_no_expiry() { check_refresh_wait(false, false) }
+
+#[kani::proof]
+#[kani::unwind(3)]
+#[kani::stub(std::time::SystemTime::now, system_now_stub)]
+#[kani::stub(chrono::Utc::now, utc_now_stub)]
+fn c34_wait_min_no_expiry() { check_refresh_wait(true, false) }
+
+#[kani::proof]
+#[kani::unwind(3)]
+#[kani::stub(std::time::SystemTime::now, system_now_stub)]
+#[kani::stub(chrono::Utc::now, utc_now_stub)]
+fn c34_wait_no_min_expiry() { check_refresh_wait(false, true) }
+
+#[kani::proof]
+#[kani::unwind(3)]
+#[kani::stub(std::time::SystemTime::now, system_now_stub)]
+#[kani::stub(chrono::Utc::now, utc_now_stub)]
+fn c34_wait_min_expiry() { check_refresh_wait(true, true) }
